@@ -86,6 +86,8 @@ func genC30(r *Rand, n int, tier string, emit func(string)) {
 		default:
 			a, b = uint64(r.Intn(1000)), uint64(r.Intn(1000000))
 		}
+		// phase-2-invalid transactions are sized and charged like valid ones
+		isValid := !(ei >= 3 && ei <= 5 && r.Chance(1, 5))
 		build := func(fee uint64, fw int) []byte {
 			body := c30Body(r, fee, fw, nOut, bodyW, widths)
 			wits := cbMap()
@@ -95,9 +97,9 @@ func genC30(r *Rand, n int, tier string, emit func(string)) {
 			case 3:
 				items = append(items, cbNull())
 			case 4:
-				items = append(items, cbBool(true), cbNull())
+				items = append(items, cbBool(isValid), cbNull())
 			default:
-				items = append(items, cbBool(true), cbNull(), cbNull())
+				items = append(items, cbBool(isValid), cbNull(), cbNull())
 			}
 			return cbArrayW(w, items...)
 		}
